@@ -221,6 +221,11 @@ class _Marshaller:
         dispatch[long] = dump_long  # noqa
 
     def dump_float(self, x):
+        if not self.py2_depth:
+            # The binary form keeps every bit (the sign and payload of a
+            # NaN do not survive repr()). Python 2 code objects keep the
+            # text form, which every Python 2 reads.
+            return self.dump_binary_float(x)
         write = self._write
         write(TYPE_FLOAT)
         s = repr(x)
@@ -237,6 +242,8 @@ class _Marshaller:
     dispatch[TYPE_BINARY_FLOAT] = dump_float
 
     def dump_complex(self, x):
+        if not self.py2_depth:
+            return self.dump_binary_complex(x)
         write = self._write
         write(TYPE_COMPLEX)
         s = repr(x.real)
